@@ -638,3 +638,42 @@ pub(crate) async fn probe_lookup(server: Connection) -> Obs {
     }
     o
 }
+
+/// Forwards at most three cases per (clause, features) identity to the report (its own bookkeeping
+/// is linear in the number of kept cases) and counts all of them.
+#[derive(Default)]
+pub(crate) struct VioSink {
+    seen: std::sync::Mutex<BTreeMap<(String, BTreeMap<String, String>), u64>>,
+}
+
+impl VioSink {
+    pub fn push(&self, report: &vcommon::Report, v: vcommon::Violation) {
+        let ident = (v.clause.clone(), v.features.clone());
+        let n = {
+            let mut s = self.seen.lock().unwrap();
+            let e = s.entry(ident).or_insert(0);
+            *e += 1;
+            *e
+        };
+        if n <= 3 {
+            report.violation(v);
+        }
+    }
+    pub fn total(&self) -> u64 {
+        self.seen.lock().unwrap().values().sum()
+    }
+    pub fn identities(&self) -> usize {
+        self.seen.lock().unwrap().len()
+    }
+    /// identity -> number of violating transitions, for the evidence file
+    pub fn summary(&self) -> J {
+        J::Array(
+            self.seen
+                .lock()
+                .unwrap()
+                .iter()
+                .map(|((c, f), n)| json!({"clause": c, "features": f, "transitions": n}))
+                .collect(),
+        )
+    }
+}
